@@ -276,6 +276,111 @@ func runC20(w *World, tier string, advMode string) (bool, interface{}) {
 			}
 		}
 	}
+	if advMode == "c15" && w.Tape.Bool(1, 2, "alterReinitAnswerHeader") {
+		// An answer is matched to its operation by identifier, type and request payload; the
+		// round named in the answer's header is not among them (the carrier may have altered
+		// it, or the file belongs to another round's folder). Whatever the header says, the
+		// answer to the reinit operation either finishes the round the node issued the
+		// operation for, or is refused without effect - it never touches another round.
+		vi := w.Tape.Choose(n, "c15victim")
+		v := w.Nodes[newIdx[vi]]
+		kind := []string{"another-live-round", "another-live-round", "unused-id", "own-id-padded"}[w.Tape.Choose(4, "headerKind")]
+		roundB := ""
+		if kind == "another-live-round" {
+			w.Advance(2e9)
+			payloadB := w.StartDKGPayload(2+w.Tape.Choose(n-1, "tB"), newIdx)
+			if rp := w.CallAPI(w.Nodes[newIdx[(vi+1)%n]], "startDKG", "POST", "/startDKG", payloadB); !rp.OK() {
+				return false, "second round not started: " + rp.ErrMsg
+			}
+			roundB = RoundID(payloadB)
+			w.Stats.Fault("multi-round")
+		}
+		var held []byte
+		judged := false
+		c2.Ops[vi].Submit = func(o *types.Operation, body []byte) *APIResult {
+			if !judged && string(o.Type) == string(types.ReinitDKG) {
+				held = body
+				return &APIResult{ErrMsg: "held: the header is altered first"}
+			}
+			return w.CallAPI(v, "submit", "POST", "/handleProcessedOperationJSON", body)
+		}
+		// round B may be anywhere between its opening proposal and the end of its key generation
+		more := w.Tape.Choose(12*n, "roundBProgress")
+		c2.L.RunUntil(func() bool {
+			if held == nil || (roundB != "" && v.Dump(roundB) == nil) {
+				return false
+			}
+			more--
+			return more < 0
+		}, 200*n)
+		if held == nil || (roundB != "" && v.Dump(roundB) == nil) {
+			return false, "reinit result / second round never became ready"
+		}
+		var ro types.Operation
+		if err := json.Unmarshal(held, &ro); err != nil {
+			return false, "held result not JSON"
+		}
+		genuineID := ro.DKGIdentifier
+		switch kind {
+		case "another-live-round":
+			ro.DKGIdentifier = roundB
+		case "unused-id":
+			ro.DKGIdentifier = freshRoundID(w, 77)
+		case "own-id-padded":
+			ro.DKGIdentifier = " " + ro.DKGIdentifier + "\n"
+		}
+		alt, _ := json.Marshal(ro)
+		w.Stats.Fault("reinit-answer-header-names-" + kind)
+		before := v.Snapshot()
+		blen := w.Board.Len()
+		rp := w.CallAPI(v, "submit", "POST", "/handleProcessedOperationJSON", alt)
+		judged = true
+		if rp.Panic != "" {
+			w.Fail("C15", "reinit-answer-with-altered-header-crashes-handler/"+kind, fmt.Sprintf("node %s: the answer to its reinit operation, header naming %s, made the handler panic: %.200s", v.Name, kind, rp.Panic))
+			return true, nil
+		}
+		after := v.Snapshot()
+		rb, ra := roundsBytes(before, genuineID), roundsBytes(after, genuineID)
+		for k, bz := range rb {
+			if !bytes.Equal(bz, ra[k]) {
+				w.Fail("C15", "reinit-answer-changed-another-round/"+kind, fmt.Sprintf("node %s: the answer to the reinit operation of round %.8s (header: %s) changed the stored round %.8s (accepted=%v)", v.Name, genuineID, kind, k, rp.OK()))
+				return true, nil
+			}
+		}
+		if len(ra) != len(rb) {
+			w.Fail("C15", "reinit-answer-created-another-round/"+kind, fmt.Sprintf("node %s: %d stored rounds besides the reinitialised one before the answer, %d after", v.Name, len(rb), len(ra)))
+			return true, nil
+		}
+		if w.Board.Len() != blen {
+			w.Fail("C15", "reinit-answer-posted-messages/"+kind, fmt.Sprintf("the answer to a reinit operation carries no messages; the board grew by %d", w.Board.Len()-blen))
+			return true, nil
+		}
+		if !rp.OK() {
+			// refused: nothing may have happened, and the unaltered file still works
+			for k, bz := range before {
+				if !bytes.Equal(bz, after[k]) {
+					w.Fail("C15", "rejected-result-had-effects/reinit-header-"+kind, fmt.Sprintf("node %s refused the answer (%s) but %s changed", v.Name, rp.ErrMsg, canonKey(k)))
+					return true, nil
+				}
+			}
+			if rp2 := w.CallAPI(v, "submit", "POST", "/handleProcessedOperationJSON", held); !rp2.OK() {
+				w.Fail("C15", "genuine-reinit-answer-refused-after-altered-one/"+kind, rp2.ErrMsg)
+				return true, nil
+			}
+		}
+		d := v.Dump(genuineID)
+		if d == nil || d.Payload.DKGProposalPayload == nil || !bytes.Equal(d.Payload.DKGProposalPayload.PubPolyBz, ro.ExtraData) {
+			w.Fail("C15", "reinit-answer-accepted-but-round-not-finished/"+kind, fmt.Sprintf("node %s accepted the answer to its reinit operation (header: %s); the round it issued the operation for does not retain the answer's polynomial", v.Name, kind))
+			return true, nil
+		}
+		for _, o := range v.PendingOps() {
+			if o.ID == ro.ID {
+				w.Fail("C15", "answered-operation-still-pending/reinit-header-"+kind, "the reinit operation is still offered after its answer was accepted")
+				return true, nil
+			}
+		}
+		return true, map[string]interface{}{"n": n, "t": t, "adv": advMode, "altered_header": kind, "accepted_as_is": rp.OK()}
+	}
 	if advMode == "c14" {
 		// request kind "finishing a reinitialisation": node v's reinit_dkg result is ready but held
 		// back; meanwhile a new round is opened on the same (new) nodes, whose opening proposal waits
